@@ -16,8 +16,8 @@ import Uquic.Generated.AckhandlerX
 
 namespace Uquic.Model.Sent
 
-abbrev PN := Int
-abbrev Time := Int
+notation "PN" => Int
+notation "Time" => Int
 /-- (Smallest, Largest) -/
 abbrev Range := PN × PN
 
